@@ -43,9 +43,10 @@ Fixpoint chk_pull (fixed fixed_link : bool) (thr : nat) (np : path) (c : cpcache
       res_ok r o && psnap_eqb c' s && cnt_eqb n' n && chk_pull fixed fixed_link thr np c' t
   end.
 
-(** handler mode (POST /api/pull through registry.Local): the retry loop decides how many attempts are made.
-    [made] = snapshots after each attempt that was made; [final_ok] = the handler reported success. *)
-Fixpoint chk_loop (fixed fixed_link : bool) (thr : nat) (np : path) (c : cpcache) (script : list cattempt)
+(** handler mode (POST /api/pull through registry.Local): with "stream": true the retry loop decides how many attempts
+    are made, with "stream": false Pull is called once.  [made] = snapshots after each attempt that was made;
+    [final_ok] = the handler reported success to its client. *)
+Fixpoint chk_loop (stream : bool) (fixed fixed_link : bool) (thr : nat) (np : path) (c : cpcache) (script : list cattempt)
                   (made : list psnap) (final_ok : bool) : bool :=
   match made with
   | [] => false
@@ -57,8 +58,8 @@ Fixpoint chk_loop (fixed fixed_link : bool) (thr : nat) (np : path) (c : cpcache
       | POk => final_ok && match made' with [] => true | _ => false end
       | PErr es =>
           match made' with
-          | [] => negb final_ok && existsb (fun e => negb (retryable e)) es
-          | _ :: _ => existsb retryable es && chk_loop fixed fixed_link thr np c' (tl script) made' final_ok
+          | [] => negb final_ok && (negb stream || existsb (fun e => negb (retryable e)) es)
+          | _ :: _ => stream && existsb retryable es && chk_loop stream fixed fixed_link thr np c' (tl script) made' final_ok
           end
       end
   end.
